@@ -223,6 +223,9 @@ def s_sign_wrap(v):
     return c
 
 
+# validate() compares the real implementation with the property itself
+VALIDATION_CHECKS_PROPERTY = True
+
 ASSUMPTIONS = ['gpg --clearsign produces a valid cleartext signature over its input when it '
                'exits 0 (binary)', 'in the model runs a Manifest node carries a signed flag; '
                'the text-level behaviour of dump is decided by dump_sign_* on the real code']
